@@ -178,7 +178,7 @@ theorem dnsName_iff {h : Str} : dnsName h = true ↔
 /-- **the hypothesis `SplitLaw` of the C12 / C13 theorems holds for the model of suffix_trie.py on
 EVERY netloc of the grammar** — DNS names, hosts with `%`, with trailing dots, with a leading dot,
 bracketed literals (never suffix-processed): the suffix-aware stems spell the lower-cased host,
-empty labels included (FX-C12-EMPTYLABELS; before the fix the clause failed on `a.co.uk.` and
+empty labels included (FX-C12-ed8ae90; before the fix the clause failed on `a.co.uk.` and
 `.co.uk`).  Nothing is assumed any more -/
 theorem splitLaw_psl (lines : List Str) (n : Str) (hwf : wfNetloc n = true) :
     SplitLaw (pslSplit lines) n :=
@@ -659,7 +659,7 @@ theorem kf_inside_suffix_psl :
 
 /-- **converse, `suffix_aware = True`, suffix_trie.py inside — nothing assumed about the split**:
 `under_of_stems_prefix_sa` with its two hypotheses `SplitLaw` discharged by `splitLaw_psl`, which
-holds on every netloc of the grammar since FX-C12-EMPTYLABELS (hosts with trailing dots or a leading
+holds on every netloc of the grammar since FX-C12-ed8ae90 (hosts with trailing dots or a leading
 dot included; before the fix `http://a.co.uk.` had the stems of `http://a.co.uk` and the converse
 failed there).  Hosts compared lower-cased, as the mode lower-cases them -/
 theorem under_of_stems_prefix_psl (lines : List Str) (u v : Parts)
@@ -683,7 +683,7 @@ theorem under_of_stems_prefix_psl_string (lines : List Str) (u v : Str) (su sv :
   exact ⟨pu, pv, hu, hv, fun hwu hwv hnu =>
     h hwu hwv hnu (fun _ => ⟨splitLaw_psl lines _ hwu, splitLaw_psl lines _ hwv⟩)⟩
 
-/-- **the former witness of the failing converse round-trips now** (FX-C12-EMPTYLABELS; it was
+/-- **the former witness of the failing converse round-trips now** (FX-C12-ed8ae90; it was
 `converse_needs_splitLaw`, the loss KF-C12-2): the root label of `http://a.co.uk.` is a stem of its
 own, so its suffix-aware stems are no longer those of `http://a.co.uk` — not a prefix of the stems
 of `http://a.co.uk/x` (which does not lie under it), a prefix of those of `http://a.co.uk./x` and of
